@@ -172,3 +172,50 @@ theorem kclose_path (n : Nat) : ∀ {k : Client}, KInv k → k.closeCalled = tru
       · simp [krun, hs, h3]
 
 end Rtsp.Life
+
+namespace Rtsp.Life
+
+/-- a path of own steps of the client is at most `krank` long -/
+theorem kown_path_bounded {as : List KAction} : ∀ {k k' : Client} {tr : List Event},
+    (∀ a, a ∈ as → a.own = true) → krun k as = some (k', tr) → as.length + krank k' ≤ krank k := by
+  induction as with
+  | nil => intro k k' tr _ h; simp [krun] at h; obtain ⟨rfl, _⟩ := h; simp
+  | cons a as ih =>
+    intro k k' tr hown h
+    simp only [krun] at h
+    cases hs : kstep k a with
+    | none => simp [hs] at h
+    | some r =>
+      obtain ⟨k1, e⟩ := r
+      simp only [hs] at h
+      cases hr : krun k1 as with
+      | none => simp [hr] at h
+      | some r2 =>
+        obtain ⟨k2, es⟩ := r2
+        simp [hr] at h
+        obtain ⟨rfl, _⟩ := h
+        have h1 := krank_own (hown a (by simp)) hs
+        have h2 := ih (fun b hb => hown b (by simp [hb])) hr
+        simp; omega
+
+theorem krun_called {as : List KAction} : ∀ {k k' : Client} {tr : List Event}, k.closeCalled = true →
+    krun k as = some (k', tr) → k'.closeCalled = true := by
+  induction as with
+  | nil => intro k k' tr hc h; simp [krun] at h; obtain ⟨rfl, _⟩ := h; exact hc
+  | cons a as ih =>
+    intro k k' tr hc h
+    simp only [krun] at h
+    cases hs : kstep k a with
+    | none => simp [hs] at h
+    | some r =>
+      obtain ⟨k1, e⟩ := r
+      simp only [hs] at h
+      cases hr : krun k1 as with
+      | none => simp [hr] at h
+      | some r2 =>
+        obtain ⟨k2, es⟩ := r2
+        simp [hr] at h
+        obtain ⟨rfl, _⟩ := h
+        exact ih (kcalled_mono hs hc) hr
+
+end Rtsp.Life
